@@ -58,6 +58,7 @@ CONSTANTS
     Body,           \* [Modules -> Seq(statement record)]
     All,            \* module -> set of advertised names, for modules that assign __all__
     DynDefs,        \* [Modules -> names functions may create with `global`]
+    DynAttr,        \* modules that define __getattr__ (PEP 562): every attribute access on them may succeed
     Funcs, FMod, FImports, FLoads, FChains,
     FlowFuncs, FNodes, FSucc, FSeeds,   \* binding events of local names: graph per function (see below)
     Builtins, Implicit, PkgImplicit
@@ -186,7 +187,7 @@ DelName == /\ AtStmt /\ Stmt.op = "del" /\ Top.k = "mod"
 (***************************************************************************)
 RECURSIVE Walk(_, _, _)
 Walk(val, links, i) ==
-    IF i > Len(links) \/ val \notin Modules THEN [ok |-> TRUE, on |-> "", attr |-> ""]
+    IF i > Len(links) \/ val \notin Modules \/ val \in DynAttr THEN [ok |-> TRUE, on |-> "", attr |-> ""]
     ELSE IF links[i] \in DOMAIN g[val] THEN Walk(g[val][links[i]], links, i + 1)
     ELSE [ok |-> FALSE, on |-> val, attr |-> links[i]]
 
